@@ -11,7 +11,10 @@ The model follows the loops of the pinned code, including its three different no
   exactly `bool`; `attrs.NOTHING` counts as present          (`reqSatisfied`)
 * an xor group counts the fields whose value is truthy (`if v`)   (`truthy`)
 
-Lazy values are not modelled (`Job.__init__` rejects them in `_check_resolved` before the rule check).
+Lazy values (`Val.lazy`: an input of a workflow node connected to an upstream output) are what the check sees when
+`Workflow.construct` calls `node._task._check_rules()`: the field's own checks are skipped (`if is_lazy(value):
+continue`), as a required field it counts as present (but never matches allowed values), and it is truthy for xor.
+(`Job.__init__` rejects lazy values in `_check_resolved` before its own rule check.)
 -/
 namespace PydraModel.Rules
 
@@ -23,6 +26,8 @@ inductive Val where
   | none
   | bool (b : Bool)
   | str (s : String)
+  /-- a `LazyField` (workflow construction time) -/
+  | lazy
   deriving DecidableEq, Repr, Inhabited
 
 /-- `Requirement(name, allowed_values)` -/
@@ -81,9 +86,9 @@ def reqSatisfied (d : Def) (a : Assignment) (r : Req) : Bool :=
 /-- `RequirementSet.satisfied` -/
 def rsSatisfied (d : Def) (a : Assignment) (rs : List Req) : Bool := rs.all (reqSatisfied d a)
 
-/-- the guard in front of the requirement check of a field -/
+/-- the guard in front of the requirement check of a field (a lazy value skips the field: `continue`) -/
 def triggers (f : Field) (v : Val) : Bool :=
-  !(v == .none || v == .bool false || (f.optFileset && v == .bool true))
+  !(v == .lazy || v == .none || v == .bool false || (f.optFileset && v == .bool true))
 
 /-- body of the `for field in get_fields(self)` loop -/
 def fieldViolations (d : Def) (a : Assignment) (f : Field) : List Violation :=
@@ -97,6 +102,7 @@ def truthy : Val → Bool
   | .none => false
   | .bool b => b
   | .str s => s != ""
+  | .lazy => true
 
 /-- body of the `for xor_set in self._xor` loop -/
 def xorViolations (a : Assignment) (g : List (Option Name)) : List Violation :=
